@@ -39,6 +39,8 @@ ALPHABET = "abcdefghijklmnopqrstuvwxyzABCDEFGHIJKLMNOPQRSTUVWXYZ0123456789_"
 def generate(rng, tier):
     n = rng.randrange(0, 9 if tier == "quick" else 11)
     fn = rng.choice(FUNCS)
+    if fn == "louvain" and rng.random() < 0.5:
+        n = rng.randrange(6, 13)  # local-move cycles need a little room (the tie cycle of 10.3 was found at n = 10)
     dens = rng.choice([0.15, 0.3, 0.5, 0.8])
     sym = rng.random() < 0.4
     adj = [[] for _ in range(n)]
